@@ -5,6 +5,7 @@ from __future__ import annotations
 from .. import terms as tm
 from ..model import AnalysisError
 from .common import ob, need, call_name, facts, role_of, roles, count_form, nonempty_bases, linear_form
+from . import common
 from .. import symeval
 from . import c01
 
@@ -487,7 +488,7 @@ def rule_squeeze(ctx):
         if f.module.name in ("sonify", "display"):
             continue
         s = ctx.S.get(f.qual)
-        sq = [c for c in s.calls() if c.term.op == "call" and call_name(c.term) == "np.squeeze" and len(c.term.a[1]) == 1 and not any(k == "axis" for k, _ in c.term.a[2])]
+        sq = [c for c in s.calls() if c.term.op == "call" and call_name(c.term) in ("np.squeeze", ".squeeze") and len(c.term.a[1]) == 1 and not any(k == "axis" for k, _ in c.term.a[2])]
         for i, c in enumerate(sq):
             used_as_seq = None
             for x in s.sites:
@@ -495,6 +496,11 @@ def rule_squeeze(ctx):
                     used_as_seq = x
                 if x.kind == "call" and x.callee == "builtins.len" and x.args and x.args[0] is c.term:
                     used_as_seq = x
+            # returned as the function's array result: callers index it / take its length
+            returned = [r for r in s.returns if r.term is c.term or (r.term.op == "tuple" and any(z is c.term for z in r.term.a))]
+            if returned:
+                doc = " ".join(str(x) for x in f.docinfo.get("returns", []))
+                yield ob("C14.SQUEEZE", f, "%s:squeeze-returned@%d" % (f.qual, i), False, "the axis-less squeeze() is returned as the function's result%s: for a one-row input it is 0-dimensional and callers that index it or take its length fail" % (" (documented as %s)" % doc[:80] if doc else ""), node=c.node)
             n += 1
             yield ob("C14.SQUEEZE", f, "%s:squeeze@%d" % (f.qual, i), used_as_seq is None, "result of .squeeze() is %s" % ("not sliced or measured" if used_as_seq is None else "sliced at line %d: for a one-element input it is 0-dimensional and the slice raises IndexError" % used_as_seq.lineno), node=c.node)
     if n == 0:
@@ -888,6 +894,7 @@ def rule_nanrange(ctx):
 
 
 RULES = [
+    ("C14.GRAMMAR", 3, common.shared("c10", "rule_grammar", "C14.GRAMMAR")),
     ("C14.NANRANGE", 3, rule_nanrange),
     ("C14.VALIDATEFIRST", 70, rule_validatefirst),
     ("C14.RAISETYPES", 80, rule_raisetypes),
